@@ -73,6 +73,11 @@ def corpus():
         f = os.path.join(t, "behaviours", b + ".mfront")
         if os.path.exists(f):
             c.append((f, "generic"))
+    # runs without any interface: only the headers of the behaviour are generated and registered (no library, no target)
+    for b in ["Norton", "Plasticity"]:
+        f = os.path.join(t, "behaviours", b + ".mfront")
+        if os.path.exists(f):
+            c.append((f, ""))
     # a behaviour using @MaterialLaw: its library depends on a second library (MFrontMaterialLaw) registered by the same run
     f = os.path.join(t, "behaviours", "T91ViscoplasticBehaviour.mfront")
     if os.path.exists(f):
@@ -94,7 +99,7 @@ def mfront(wd, inp, extra_env=None):
     env["VPRE_SEM_PRIVATE"] = "1"   # killed runs must not leave the user's real /dev/shm semaphore locked
     if extra_env:
         env.update(extra_env)
-    p = subprocess.run([MF, "--interface=" + inp[1]] + list(inp[2:]) + [inp[0]], cwd=wd, env=env, stdout=subprocess.PIPE, stderr=subprocess.STDOUT, text=True)
+    p = subprocess.run([MF] + (["--interface=" + inp[1]] if inp[1] else []) + list(inp[2:]) + [inp[0]], cwd=wd, env=env, stdout=subprocess.PIPE, stderr=subprocess.STDOUT, text=True)
     return p.returncode, p.stdout
 
 
@@ -275,7 +280,8 @@ class Ctx:
             rc, out = mfront(d, self.cps[i])
             reg, st = read_registry(d)
             if rc != 0 or reg is None:
-                raise SystemExit("corpus input %s does not run alone: rc=%d %s" % (self.cps[i], rc, out[-300:]))
+                shutil.rmtree(d, ignore_errors=True)
+                raise RuntimeError("run of %s alone in a fresh directory: exit status %d, registry %s; output: %s" % (self.cps[i], rc, st, out[-300:]))
             self.standalone[i] = reg
             shutil.rmtree(d, ignore_errors=True)
         return self.standalone[i]
@@ -386,7 +392,12 @@ def replay(args, ctx):
     rep = json.load(open(args.replay))
     viol, stats = [], {"mfront_runs": 0, "idempotence_checked": 0, "crash_points": 0, "damage_reported_by_next_run": 0, "io_events_numbered": 0}
     h = rep["history"]
-    if "k" in rep:
+    if "single" in rep:
+        try:
+            ctx.alone(rep["single"])
+        except RuntimeError as e:
+            viol.append(("single-run-leaves-no-valid-registry", str(e), {}))
+    elif "k" in rep:
         base = ctx.newdir("base")
         for i in h["runs"][:h["crash_at"]]:
             mfront(base, ctx.cps[i])
@@ -437,8 +448,20 @@ def main():
         run_roundtrip(rt, args.seed, 4000 if tier == 0 else 100000, viol, stats)
         samples = []
         with concurrent.futures.ThreadPoolExecutor(max_workers=NPROC) as pool:
+            unusable = []
             for i in range(len(cps)):
-                ctx.alone(i)
+                try:
+                    ctx.alone(i)
+                except RuntimeError as e:
+                    # a successful run must leave a registry recording what it generated (one-run history)
+                    viol.append(("single-run-leaves-no-valid-registry", str(e), {"history": {"runs": [i], "crash_at": 0, "follow": []}, "single": i}))
+                    unusable.append(i)
+            if unusable:   # the histories below cannot be judged with inputs that have no description of their own
+                log("WARNING: %d corpus input(s) left out of the histories: %s" % (len(unusable), [cps[i][:2] for i in unusable]))
+                cps = [c for i, c in enumerate(cps) if i not in unusable]
+                ctx = Ctx(cps, root)
+                for i in range(len(cps)):
+                    ctx.alone(i)
             hidx = 0
             while hidx < nhist and not (budget and time.time() - t0 > budget):
                 h = gen_history(args.seed * 100000 + hidx, tier, cps)
